@@ -7,6 +7,7 @@
 ///////////////////////////////////////////////////////////////////////////////
 #define CPPCMS_SOURCE
 //#define DEBUG_HTTP_PARSER
+#include <booster/verif_hooks.h>
 #include "cgi_api.h"
 #include "cgi_acceptor.h"
 #include <cppcms/service.h>
@@ -210,6 +211,7 @@ namespace cgi {
 		{
 			if(!input_buffer_empty()) {
 				auto ptr = self();
+				CPPCMS_VERIF_PROBE("http.next_request_already_in_read_ahead");
 				socket_.get_io_service().post([=] {
 					ptr->some_headers_data_read(booster::system::error_code(),h);
 				});
@@ -343,6 +345,7 @@ namespace cgi {
 				input_body_.clear();
 				input_body_ptr_=0;
 			}
+				CPPCMS_VERIF_PROBE("http.body_bytes_from_header_read_ahead");
 			if(!input_body_.empty()) {
 				if(input_body_.size() - input_body_ptr_ < s) {
 					s=input_body_.size() -  input_body_ptr_;
